@@ -149,6 +149,8 @@ func runC16(c *Ctx, r *Report) {
 	r.Rule("C16.R3", "interning and keywords: identifier text goes only through LookupIdent, which consults the keyword table before interning an IDENT; the keyword table is filled for the whole identity-token range; value tokens are built through Intern; nothing reachable from token production (NextToken, Intern, InternToken, LookupIdent) replaces, clears or deletes from the interning table")
 	r.Rule("C16.R6", "escape readers consume validated bytes only: in the lexer functions reachable from readString every readChar() sits on the true edge of a byte predicate applied to peekChar() that rejects both quote characters and NUL (folded on all 256 bytes)")
 	c.checkEscapeReaders(r, "C16.R6")
+	r.Rule("C16.R7", "token text is an owned copy: none of the front-end packages (lexer, token, parser, ast) imports unsafe, so the text the readers build with string(input[a:b]) cannot share storage with the caller's buffer")
+	c.checkOwnedTokenText(r, "C16.R7")
 	r.Rule("C16.R4", "sticky end marker: NextToken returns the end marker only when the position is past the end of the input (a NUL byte inside the input is not the end)")
 
 	li := c.lexerInfo()
@@ -1003,4 +1005,34 @@ func (c *Ctx) nextTokenPairSets(fn *ssa.Function) (map[*ssa.BasicBlock]*pairSet,
 		}
 	}
 	return in, chV, nxV
+}
+
+// checkOwnedTokenText: rule C16.R7, token text is an owned copy of the bytes it spans.
+//
+// lexer.NewBytes keeps the caller's slice as its input (repl.Grol.Parse hands the caller's buffer in): a
+// token literal that aliases that buffer changes when the caller reuses it, and so do the keys of the
+// interning table. The readers build their text with string(input[a:b]), which copies. No module package of
+// the front end (lexer, token, parser, ast) imports package unsafe, the only way to make a string share
+// the storage of a byte slice.
+func (c *Ctx) checkOwnedTokenText(r *Report, rule string) {
+	n := 0
+	for _, short := range []string{"lexer", "token", "parser", "ast"} {
+		p := c.Pkgs[short]
+		if p == nil {
+			r.Undecided("%s: package %s not loaded", rule, short)
+			continue
+		}
+		n++
+		bad := false
+		for _, imp := range p.Types.Imports() {
+			if imp.Path() == "unsafe" {
+				bad = true
+			}
+		}
+		r.Check(!bad, rule, short, "package "+short+" does not import unsafe", short,
+			"package "+short+" imports unsafe: a string made with unsafe.String over the lexer's input aliases the caller's buffer (lexer.NewBytes keeps it), so delivered token text and the keys of the interning table change when the buffer is reused")
+	}
+	if n < 4 {
+		r.Undecided("%s: only %d front-end packages examined", rule, n)
+	}
 }
